@@ -137,8 +137,9 @@ impl Sys for St {
         let class;
         match r {
             Err(e) => {
-                // refusal is required exactly for non-empty input after the end
-                if !(was_finished && i > 0) {
+                // refusal is required for non-empty input after the end; a further EMPTY write after the end
+                // "emits nothing" - whether it is accepted as a no-op or refused is the implementation's choice
+                if !was_finished {
                     return Err((key("unexpected-error"), format!("write({} bytes, {}-byte buffer) in state finished={} failed: {:?}", i, b, was_finished, e)));
                 }
                 if self.fp() != fp_before {
